@@ -18,7 +18,8 @@ CHECKS = {
 CHECKS['C02'] = dict(
    text='Exhaustive: TLC evaluates the decode clauses on the frozen TLA+ instruction table for all 65536 first words, and '
         'TLC validates, for all 65536 words, what the real decoder (recording visitor), the interpreter instantiation, the '
-        'disassembler and the parser report against that table.',
+        'disassembler and the parser report against that table; the disassembler is asked plain, with an ar/arp register view and plain '
+        'again (same plain answer; annotated text = plain text with every slot rendered from TeakRegs bit-field views).',
    design_ref='5.2',
    note='Trusted: TLC, CommunityModules, g++; TeakDecodeTable.tla (transcribed once from the pinned decoder.h, frozen). '
         'Execution clause: every first word that takes a second word is executed by the real interpreter from random states '
